@@ -75,17 +75,22 @@ def rewrite_tu(text, exports, stubs):
         head2 = re.sub(r"\bstatic\b", "", head)
         head2 = re.sub(r"\binline\b", "", head2)
         text = text[:m.start("head")] + head2 + text[m.end("head"):]
-    for f in stubs:
+    for f, mangled in stubs:
         m = re.search(DEF_RE % re.escape(f), text)
         if not m:
             continue
         head = m.group("head")
         head_ext = re.sub(r"\b(static|inline)\b", "", head)
         head_ext = re.sub(r"__attribute__\s*\(\(.*?\)\)", "", head_ext)
-        proto = "%s %s(%s);\n" % (head_ext.strip(), f, m.group("args"))
+        target = ("vfstub_" + f) if mangled else f
+        proto = "%s %s(%s);\n" % (head_ext.strip(), target, m.group("args"))
         new = proto + "static __attribute__((unused)) " + re.sub(r"\bstatic\b", "", head).strip() + \
             " " + f + "__real(" + m.group("args") + ") {"
-        text = text[:m.start("head")] + new + text[m.end():]
+        before, after = text[:m.start("head")], text[m.end():]
+        if mangled:
+            before = re.sub(r"\b%s\b" % re.escape(f), target, before)
+            after = re.sub(r"\b%s\b" % re.escape(f), target, after)
+        text = before + new + after
     return text
 
 
@@ -115,21 +120,24 @@ def native_replay(inst, q, workdir, inputs=None):
         if p.returncode != 0:
             return {"status": "error", "detail": "gcc -E failed: " + p.stderr[-500:]}
         exports = [fn for (f, ext, fn) in used if f == tu and ext == "c"]
-        # statics that live in headers are exported from every unit that has them
-        exports += [fn for (f, ext, fn) in used if ext == "h"]
         stubs = []
-        for s in h.get("strip", {}).get(tu, []):
-            m = re.match(r"__CPROVER_file_local_\w+?_[ch]_(\w+)$", s)
-            stubs.append(m.group(1) if m else s)
-        exports = [e for e in exports if e not in stubs]
+        for s_ in h.get("strip", {}).get(tu, []):
+            m = re.match(r"__CPROVER_file_local_\w+?_[ch]_(\w+)$", s_)
+            stubs.append((m.group(1), True) if m else (s_, False))
+        exports = [e for e in exports if e not in [x[0] for x in stubs]]
         text = rewrite_tu(p.stdout, exports, stubs)
         # header statics exported from several units would clash: keep them static
         # in all but the first unit
         out = os.path.join(d, "real_" + tu + ".c")
         open(out, "w").write(text)
         srcs.append(out)
+    stubbed = set()
+    for tu, lst in h.get("strip", {}).items():
+        for s_ in lst:
+            stubbed.add(s_)
     for (f, ext, fn) in used:
-        alias.append("-D__CPROVER_file_local_%s_%s_%s=%s" % (f, ext, fn, fn))
+        mangled = "__CPROVER_file_local_%s_%s_%s" % (f, ext, fn)
+        alias.append("-D%s=%s" % (mangled, ("vfstub_" + fn) if mangled in stubbed else fn))
     main = os.path.join(d, "replay_main.c")
     with open(main, "w") as fo:
         fo.write("#define REPLAY 1\n")
@@ -147,6 +155,7 @@ def native_replay(inst, q, workdir, inputs=None):
     exe = os.path.join(d, "replay")
     cmd = ["gcc", "-std=gnu11", "-g", "-O1", "-w", "-fsanitize=address,undefined",
            "-fno-sanitize-recover=undefined", "-fno-omit-frame-pointer",
+           "-ffunction-sections", "-fdata-sections", "-Wl,--gc-sections",
            "-DPOLYSEED_STATIC"] + cfgflags + inc + alias + [main] + srcs + ["-o", exe]
     p = subprocess.run(cmd, capture_output=True, text=True)
     if p.returncode != 0:
